@@ -4,7 +4,7 @@ from fractions import Fraction as Fr
 
 import fol
 import streams
-from common import parse_q, sub_seed
+from common import parse_q, sub_seed, size
 
 THEOREMS = ["LNN.C02_sound",
             "LNN.C02_sound_call",
@@ -42,7 +42,7 @@ def oracle(rec):
 
 
 def run(rep, tier, seed):
-    n = 100 if tier == "quick" else 2000
+    n = size(tier, 100, 2000)
     cases = [fol.gen_c02_case(random.Random(sub_seed(seed, "c02", k)), interp=(k % 3 != 2)) for k in range(n)]
     recs, first_dis = streams.run_fol_stream(rep, "fol-qf", cases, {"tables", "reported", "contra"}, fn="run_c02")
     eq = looser = 0
